@@ -179,6 +179,27 @@ type FieldSpec struct {
 func init() {
 	for i := range Fields {
 		Fields[i].label = "rec." + Fields[i].Name
+		// every rational field also with its default value written over a large denominator (the
+		// same number, terms a million or a thousand times larger: products of a term overflow 32 bits)
+		if d := Fields[i].Menu[0]; len(d.Rats) > 0 {
+			for _, scale := range []uint64{1000000, 1000} {
+				ok := true
+				for _, q := range d.Rats {
+					if uint64(q[0])*scale >= 1<<32 || uint64(q[1])*scale >= 1<<32 {
+						ok = false
+					}
+				}
+				if !ok {
+					continue
+				}
+				v := Val{Type: d.Type}
+				for _, q := range d.Rats {
+					v.Rats = append(v.Rats, [2]uint32{q[0] * uint32(scale), q[1] * uint32(scale)})
+				}
+				Fields[i].Menu = append(Fields[i].Menu, v)
+				break
+			}
+		}
 	}
 }
 
@@ -240,7 +261,7 @@ var Fields = []FieldSpec{
 	{DirGPS, 0x0004, "GPSLongitude", []Val{Rat(r(8, 1), r(32, 1), r(2755, 100)), Rat(r(180, 1), r(0, 1), r(0, 1)), Rat(r(179, 1), r(59, 1), r(59999, 1000))}, false, ""},
 	{DirGPS, 0x0005, "GPSAltitudeRef", []Val{Byte(0), Byte(1)}, false, ""},
 	{DirGPS, 0x0006, "GPSAltitude", []Val{Rat(r(4083, 10)), Rat(r(0, 1)), Rat(r(8848, 1)), Rat(r(1, 3))}, false, ""},
-	{DirGPS, 0x0007, "GPSTimeStamp", []Val{Rat(r(10, 1), r(34, 1), r(56, 1)), Rat(r(0, 1), r(0, 1), r(0, 1)), Rat(r(23, 1), r(59, 1), r(59, 1)), Rat(r(20, 2), r(68, 2), r(5600, 100))}, false, ""},
+	{DirGPS, 0x0007, "GPSTimeStamp", []Val{Rat(r(10, 1), r(34, 1), r(56, 1)), Rat(r(0, 1), r(0, 1), r(0, 1)), Rat(r(23, 1), r(59, 1), r(59, 1)), Rat(r(20, 2), r(68, 2), r(5600, 100)), Rat(r(1310720, 65536), r(118000000, 2000000), r(4000000000, 100000000))}, false, ""},
 	{DirGPS, 0x001d, "GPSDateStamp", []Val{S("2023:06:15"), S("1999:12:31")}, false, ""},
 }
 
